@@ -75,7 +75,7 @@ static std::vector<TreeSpec> make_trees(bool quick) {
     std::vector<std::string> endv(ends.begin(), ends.end());
     unsigned total = 1u << u.size();
     for (unsigned m = 0; m < total; ++m) {
-        if (quick && (m % 8) != 5 && m != total - 1 && m != 0 && __builtin_popcount(m) != 1) continue;
+        (void) quick; // all 1024 subsets in both tiers (seconds)
         TreeSpec t;
         t.name = "subset" + std::to_string(m);
         for (size_t i = 0; i < u.size(); ++i) {
